@@ -265,7 +265,7 @@ def resume_part(ck):
     if ck.tier == "thorough":
         confs += [dict(clustering=True, cluster_every=5, n_max_clusters=2, target="bimodal", n_particles=16), dict(pool=2), dict(reflective=[0], periodic=[1]),
                   dict(support=0.5, ess_ratio=3.0, n_particles=16)]
-    jobs = [dict(conf=c, seed=80 + i + 100 * ck.seed, label=f"c08#{i}", n_total=32, save_every=1 if i % 2 == 0 else 2,
+    jobs = [dict(conf=c, seed=80 + i + 100 * ck.seed, label=f"c08#{i}", n_total=32 if i % 3 else 80, save_every=1 if i % 2 == 0 else 2,
                  max_ckpt=4 if ck.tier == "quick" else None) for i, c in enumerate(confs)]
     results = [None] * len(jobs)
     with cf.ProcessPoolExecutor(max_workers=sysrun.PROCS, mp_context=mp.get_context("fork")) as ex:
